@@ -298,7 +298,8 @@ impl DimacsDoc {
     }
 }
 
-pub const FEATURES: [&str; 21] = [
+pub const FEATURES: [&str; 22] = [
+    "last_line_of_any_kind_without_newline",
     "comment_with_non_ascii_bytes",
     "multi_blank_between_tokens",
     "tab_separator",
@@ -672,6 +673,12 @@ pub fn render_dimacs(doc: &DimacsDoc, lt: u8, l: &mut Layout) -> Doc {
                 b.raw(b"\n");
             }
         }
+    }
+    // whatever the last line is - header, clause, comment, blank - it may lack its final newline
+    if l.on() && b.d.bytes.ends_with(b"\n") && !b.d.bytes.ends_with(b"\r\n") && b.d.bytes.len() > 1 {
+        feat(&mut b, "no_final_newline");
+        feat(&mut b, "last_line_of_any_kind_without_newline");
+        b.d.bytes.pop();
     }
     b.finish()
 }
